@@ -103,6 +103,7 @@ type Model struct {
 	evictMax     int
 	newAnon      []*Msg // enqueued without explicit id: id to be adopted
 	fresh        map[*Msg]bool // inserted by the operation being compared
+	doubtDeq     *doubtDequeue
 
 	// LiftedAboveDepth: an operator requeue/resume took the active count above
 	// max_depth; the depth clauses of C12 exclude such histories until the
@@ -1089,6 +1090,12 @@ func (m *Model) CompareListing(now time.Time, opDesc string, items []queue.Envel
 	evictMin, evictMax := m.evictMin, m.evictMax
 	m.sweepAllowed, m.evictMin, m.evictMax = false, 0, 0
 	defer func() { m.fresh = nil }()
+	dd := m.doubtDeq
+	m.doubtDeq = nil
+	ddLeft := 0
+	if dd != nil {
+		ddLeft = dd.batch
+	}
 
 	obs := map[string]queue.Envelope{}
 	for _, it := range items {
@@ -1170,6 +1177,19 @@ func (m *Model) CompareListing(now time.Time, opDesc string, items []queue.Envel
 			x.NextRunAt = it.NextRunAt
 			x.DeadReason = ""
 			m.Stats.SweepsAdopted++
+		}
+		// a dequeue whose answer was lost: the message may be leased under an unknown id
+		if dd != nil && ddLeft > 0 && it.State == queue.StateLeased && it.Attempt == x.Attempt+1 && matchFilter(x, dd.route, dd.target) &&
+			it.NextRunAt.Equal(dd.now.Add(dd.ttl)) &&
+			((x.State == queue.StateQueued && !x.NextRunAt.After(dd.now)) || (x.State == queue.StateLeased && !x.LeaseUntil.After(dd.now))) {
+			ddLeft--
+			x.State = queue.StateLeased
+			x.Attempt = it.Attempt
+			x.LeaseID = fmt.Sprintf("unknown-lease-%s-%d", x.ID, x.Attempt)
+			x.LeaseUntil = it.NextRunAt
+			x.NextRunAt = it.NextRunAt
+			x.DeadReason = ""
+			m.Lease[x.LeaseID] = x.ID
 		}
 		if it.State != x.State {
 			vs = append(vs, viol("C02.state", "C02", "after %s: message %s is %s, contract says %s", opDesc, x.ID, it.State, x.State))
@@ -1348,4 +1368,74 @@ func (m *Model) Hash() uint64 {
 		mix(fmt.Sprint(x.Attempt))
 	}
 	return h
+}
+
+// Clone makes a deep copy (used to fork the model for an in-doubt operation).
+func (m *Model) Clone() *Model {
+	c := &Model{Cfg: m.Cfg, Msgs: make(map[string]*Msg, len(m.Msgs)), seq: m.seq,
+		Lease: make(map[string]string, len(m.Lease)), Gone: make(map[string]string, len(m.Gone)), Reused: make(map[string]bool, len(m.Reused)),
+		sweepAllowed: m.sweepAllowed, evictMin: m.evictMin, evictMax: m.evictMax, Stats: m.Stats}
+	old2new := map[*Msg]*Msg{}
+	for id, x := range m.Msgs {
+		y := *x
+		y.Payload = append([]byte(nil), x.Payload...)
+		y.Headers = cloneMap(x.Headers)
+		y.Trace = cloneMap(x.Trace)
+		c.Msgs[id] = &y
+		old2new[x] = &y
+	}
+	for k, v := range m.Lease {
+		c.Lease[k] = v
+	}
+	for k, v := range m.Gone {
+		c.Gone[k] = v
+	}
+	for k, v := range m.Reused {
+		c.Reused[k] = v
+	}
+	for _, x := range m.newAnon {
+		y := *x
+		c.newAnon = append(c.newAnon, &y)
+		old2new[x] = &y
+	}
+	if m.fresh != nil {
+		c.fresh = map[*Msg]bool{}
+		for x := range m.fresh {
+			if y := old2new[x]; y != nil {
+				c.fresh[y] = true
+			}
+		}
+	}
+	if m.doubtDeq != nil {
+		d := *m.doubtDeq
+		c.doubtDeq = &d
+	}
+	return c
+}
+
+// doubtDequeue: a dequeue whose answer was never seen (crash). If it committed,
+// up to batch offerable messages are now leased under lease ids nobody knows.
+type doubtDequeue struct {
+	now    time.Time
+	ttl    time.Duration
+	route  string
+	target string
+	batch  int
+}
+
+// DoubtDequeue arms the adoption of an unseen dequeue for the next CompareListing.
+func (m *Model) DoubtDequeue(now time.Time, req queue.DequeueRequest) {
+	batch := req.Batch
+	if batch <= 0 {
+		batch = 1
+	}
+	if batch > 100 {
+		batch = 100
+	}
+	ttl := req.LeaseTTL
+	if ttl <= 0 {
+		ttl = 30 * time.Second
+	}
+	m.doubtDeq = &doubtDequeue{now: now, ttl: ttl, route: req.Route, target: req.Target, batch: batch}
+	m.sweepAllowed = true
 }
